@@ -7,3 +7,5 @@ for p in "$@"; do
     echo "$p seed=$s :: $out"
   done
 done
+# the runs above regenerated lean/PyndlModel/Generated.lean from the changed tree: restore it from /repo
+/venv/bin/python -c "import sys; sys.path.insert(0,'$(dirname $0)/../harness'); import extract_constants as e; e.regenerate()" > /dev/null
